@@ -101,11 +101,31 @@ def gen(ctx):
         pool.append(qgen.gen_logical(ctx.rng, ctx.rng.randint(1, 3), names))   # well-typed by construction (checked by the Lean judgment too)
     for e in pool:
         cases.append({"kind": "tree", "ast": {"segs": [{"g": "child", "sels": [{"s": "filter", "e": e}]}], "fake": False}})
+    # the same trees at the other positions of a query where a filter may stand ("at any position")
+    F = lambda e: {"g": "child", "sels": [{"s": "filter", "e": e}]}                                    # noqa: E731
+    name_a = {"g": "child", "sels": [{"s": "name", "v": "a"}]}
+    for e in ctx.rng.sample(pool, min(len(pool), 700 if ctx.tier == "quick" else 20000)):
+        w = ctx.rng.randrange(6)
+        if w == 0:      # inside the query of an existence test of an outer filter
+            ast = {"segs": [F({"t": "self", "q": [name_a, F(e)]})], "fake": False}
+        elif w == 1:    # inside the query argument of count()
+            ast = {"segs": [F({"t": "infix", "l": {"t": "func", "name": "count", "args": [{"t": "self", "q": [F(e)]}]}, "op": ">", "r": {"t": "int", "v": 1}})], "fake": False}
+        elif w == 2:    # after a descendant segment
+            ast = {"segs": [{"g": "desc"}, F(e)], "fake": False}
+        elif w == 3:    # as one selector of a bracketed selection
+            ast = {"segs": [{"g": "child", "sels": [{"s": "index", "v": 0}, {"s": "filter", "e": e}]}], "fake": False}
+        elif w == 4:    # under the fake root
+            ast = {"segs": [F(e)], "fake": True}
+        else:           # as a later operand of a compound query
+            cases.append({"kind": "tree", "ast": {"segs": [F(e)], "fake": False}, "prefix": "$.a | ", "where": "compound operand"})
+            continue
+        cases.append({"kind": "tree", "ast": ast, "where": ["nested filter", "count() argument", "after ..", "selector list", "fake root"][w]})
     # integer ranges
     dmin, dmax = -(2**53) + 1, 2**53 - 1
     for (lo, hi, name) in [(dmin, dmax, "default"), (-10, 10, "narrow"), (0, 5, "narrow0")]:
         for v in [lo - 1, lo, lo + 1, hi - 1, hi, hi + 1, 0, -1, 1]:
-            for form in ["$[{}]", "$[{}:]", "$[:{}]", "$[::{}]", "$[1, {}]", "$..[{}]", "$[?@[{}]]", "$[?@[{}:]]"]:
+            for form in ["$[{}]", "$[{}:]", "$[:{}]", "$[::{}]", "$[1, {}]", "$..[{}]", "$[?@[{}]]", "$[?@[{}:]]", "$[?length(@[{}]) == 1]", "$[?@[?@[{}]]]", "$.a | $[{}]", "^[{}]",
+                         "$[?count(@[:{}]) > 0]", "$.a & $..[{}:]"]:
                 cases.append({"kind": "range", "text": form.format(v), "limits": [lo, hi], "value": v})
     for t in ["$[00]", "$[01]", "$[-0]", "$[-01]", "$[0]", "$[10]", "$[-1]", "$[]", "$[1,]", "$[,1]", "$['a',]", "$[1, ]", "$[ ]", "$[*,]", "$[?@.a,]", "$[1:2,]", "$[1,,2]",
               "$[?@[01]]", "$[?@[]]", "$..[]", "$[1 2]"]:
@@ -135,6 +155,18 @@ def env_for(limits):
 
 
 SYNTAX_EXPECT = {"$[0]": True, "$[10]": True, "$[-1]": True}
+
+
+_WT_ENV = None
+
+
+def _explicit_env_compile(text):
+    """the observation point JSONPathEnvironment(well_typed=True).compile"""
+    global _WT_ENV
+    import jsonpath
+    if _WT_ENV is None:
+        _WT_ENV = jsonpath.JSONPathEnvironment(well_typed=True)
+    return core.outcome(lambda: _WT_ENV.compile(text))
 
 
 def evaluate(ctx, cases):
@@ -172,8 +204,10 @@ def evaluate(ctx, cases):
         if c["kind"] == "tree":
             wt = tmap[id(c)]
             r = qgen.R(ctx.rng, blanks=ctx.rng.random() < 0.3, canonical=ctx.rng.random() < 0.3)
-            text = qgen.render_path(c["ast"], r)
-            o = qeval.compile_outcome(text)
+            text = c.get("prefix", "") + qgen.render_path(c["ast"], r)
+            if "where" in c:
+                ctx.count("position:" + c["where"])
+            o = qeval.compile_outcome(text) if ctx.rng.random() < 0.5 else _explicit_env_compile(text)
             ok = "ok" in o
             ctx.case(text, True, sample={"query": text, "rfc_well_typed": wt, "compiled": ok})
             ctx.count(f"tree:wt={wt}")
